@@ -164,6 +164,12 @@ EXTRA_GENERATORS = []
 
 
 def write(path):
+    # companion file with the Pade/Legendre tables (harness/translate_expgram.py)
+    try:
+        import translate_expgram
+        translate_expgram.write(os.path.join(os.path.dirname(path), "ExpGramConstants.v"))
+    except ImportError:
+        pass
     text = generate()
     old = None
     if os.path.exists(path):
@@ -178,9 +184,10 @@ def write(path):
 
 if __name__ == "__main__":
     out = sys.argv[1] if len(sys.argv) > 1 else "/verif/coq/Generated/Constants.v"
+    sys.path.insert(0, os.path.dirname(os.path.abspath(__file__)))
     try:
         changed = write(out)
-    except TranslateError as e:
+    except Exception as e:  # noqa: BLE001  (TranslateError of either translator, or any parse failure: fail closed)
         print(f"TRANSLATE-ERROR: {e}")
         sys.exit(2)
     print("changed" if changed else "unchanged")
